@@ -71,6 +71,8 @@ func checkC15(c *Ctx) {
 	checkSnapshotImmutable(c, "R9")
 	c.Rule("R10", "a deleted member leaves the tiers: from every delete on the member map the stored object reaches a tier purge on every path, independent of its health flag")
 	checkMemberDeleteLeavesTiers(c, "R10")
+	c.Rule("R11", "the health state object of a host (flag and check streaks) is set at construction only - tier membership and flag cannot be made to disagree by importing another host's state")
+	checkHealthStateNotReplaced(c, "R11")
 
 	// ---------------- R3
 	if h := p.Func(hostPkg, "(*Set).healthy"); h == nil {
@@ -1291,5 +1293,55 @@ func checkMemberDeleteLeavesTiers(c *Ctx, rule string) {
 	}
 	if n == 0 {
 		c.Unresolved(rule, "no delete from Set.all outside the tier purgers")
+	}
+}
+
+// checkHealthStateNotReplaced (C15.R11): a host's health flag lives in a state object reached through a pointer field of
+// the host. The tiers are filled on the assumption that a host that enters the set is flagged healthy (add inserts
+// without looking at the flag) and that only the host's own setHealthy/setUnhealthy change the flag. Assigning another
+// state object to an existing host imports a foreign flag (and foreign check streaks): the host is in a healthy tier
+// while flagged unhealthy, and MarkHostUnhealthy - which acts only on a true->false flip - can never take it out.
+// The field is written at construction only.
+func checkHealthStateNotReplaced(c *Ctx, rule string) {
+	p := c.P
+	hostT := p.Named(hostPkg, "Host")
+	if hostT == nil {
+		c.Unresolved(rule, "host.Host")
+		return
+	}
+	st, _ := hostT.Underlying().(*types.Struct)
+	var stateF *types.Var
+	for i := 0; st != nil && i < st.NumFields(); i++ {
+		f := st.Field(i)
+		pt, ok := f.Type().(*types.Pointer)
+		if !ok {
+			continue
+		}
+		if inner, ok := pt.Elem().Underlying().(*types.Struct); ok {
+			for k := 0; k < inner.NumFields(); k++ {
+				if ts := types.TypeString(inner.Field(k).Type(), nil); strings.HasSuffix(ts, "atomic.Bool") {
+					stateF = f
+				}
+			}
+		}
+	}
+	if stateF == nil {
+		c.Unresolved(rule, "the field of host.Host that holds the health flag")
+		return
+	}
+	nw, nbad := 0, 0
+	for _, a := range p.fieldAccesses(stateF) {
+		if !a.Write || p.isTestFn(a.Fn) {
+			continue
+		}
+		nw++
+		if isFreshAlloc(a.Base) {
+			continue
+		}
+		nbad++
+		c.Fail(rule, fmt.Sprintf("%s write#%d of the health state of an existing host", fnKey(a.Fn), nbad), a.In.Pos(), "the health state object of an existing host is replaced: the host takes over a foreign health flag and check streak while the tiers were (or are about to be) filled on the assumption that an entering host is healthy - a host flagged unhealthy sits in a healthy tier, is handed out by Healthy(), and MarkHostUnhealthy cannot take it out because the flag does not flip")
+	}
+	if nbad == 0 {
+		c.OK(rule, "health state set at construction only", token.NoPos, fmt.Sprintf("%d writes of Host.%s, all on freshly constructed hosts", nw, stateF.Name()))
 	}
 }
